@@ -7,6 +7,10 @@ node.  READ (Python ast) from lexer.py and parser.py:
   suite is exactly the yield of `lineno, token, data`, and nothing assigns `data` between the test and the yield);
 * in `Parser.subparse`, the `data` branch: is `add_data(nodes.TemplateData(token.value, …))` guarded by `if token.value:`.
 
+* in `CodeGenerator.visit_Output` (compiler.py): the list `body` of constant groups / runtime nodes is built by `append`
+  only (never re-assigned, filtered, or shortened), and the loop that writes it out writes every constant group
+  unconditionally (`yield <repr>` / `<repr>,`): no group is skipped, empty or not.
+
 A native template whose only output is one expression returns the value itself only if no empty string is yielded next
 to it (nativetypes.native_concat looks at the number of pieces), hence C34 states theorems over these facts."""
 from __future__ import annotations
@@ -116,7 +120,52 @@ def _subparse_guard(subparse):
     raise Untranslatable("subparse: data branch not found")
 
 
+def _visit_output(ctree):
+    """(body is only appended to, every constant group is written)"""
+    vo = find_func(find_class(ctree, "CodeGenerator"), "visit_Output")
+    assigns, mutators, deleted = 0, set(), False
+    for n in ast.walk(vo):
+        if isinstance(n, (ast.Assign, ast.AugAssign, ast.AnnAssign)):
+            targets = n.targets if isinstance(n, ast.Assign) else [n.target]
+            for t in targets:
+                for x in ast.walk(t):
+                    if isinstance(x, ast.Name) and x.id == "body":
+                        if isinstance(t, ast.Name):
+                            assigns += 1
+                        else:
+                            deleted = True        # body[...] = …
+        if isinstance(n, ast.Delete) and any(isinstance(x, ast.Name) and x.id == "body" for t in n.targets for x in ast.walk(t)):
+            deleted = True
+        if isinstance(n, ast.Call) and isinstance(n.func, ast.Attribute) and isinstance(n.func.value, ast.Name) \
+                and n.func.value.id == "body":
+            mutators.add(n.func.attr)
+    if assigns == 0:
+        raise Untranslatable("visit_Output: no `body` list")
+    only_append = assigns == 1 and not deleted and mutators <= {"append"}
+    loops = [n for n in ast.walk(vo) if isinstance(n, ast.For) and isinstance(n.iter, ast.Name) and n.iter.id == "body"]
+    if len(loops) != 1:
+        raise Untranslatable(f"visit_Output: {len(loops)} loops over body")
+    loop = loops[0]
+    if not (isinstance(loop.target, ast.Name) and len(loop.body) == 1 and isinstance(loop.body[0], ast.If)
+            and ast.unparse(loop.body[0].test) == f"isinstance({loop.target.id}, list)"):
+        raise Untranslatable("visit_Output: the write loop does not start with `if isinstance(item, list)`")
+    group = loop.body[0].body
+    skips = [n for s in group for n in ast.walk(s) if isinstance(n, (ast.Continue, ast.Break, ast.Return, ast.Raise))]
+    ifs = [s for s in group if isinstance(s, ast.If)]
+
+    def writes(suite):
+        return any(isinstance(n, ast.Call) and isinstance(n.func, ast.Attribute) and n.func.attr in ("writeline", "write")
+                   for s in suite for n in ast.walk(s))
+
+    always = (not skips and len(ifs) == 1 and ast.unparse(ifs[0].test) == "frame.buffer is None"
+              and writes(ifs[0].body) and writes(ifs[0].orelse)
+              and all(isinstance(s, (ast.Assign, ast.Expr)) or s is ifs[0] for s in group))
+    return only_append, always
+
+
 def gen():
+    ctree = parse("compiler")
+    only_append, always_written = _visit_output(ctree)
     ltree = parse("lexer")
     members = _ignore_if_empty(ltree)
     tokeniter = find_func(find_class(ltree, "Lexer"), "tokeniter")
@@ -135,5 +184,9 @@ def gen():
          f"def subparseSkipsEmptyData : Bool := {lbool(pguard)}\n",
          "/-- the lexer drops a data group that is empty after stripping -/",
          "def lexerDropsEmptyData : Bool := ignoreIfEmpty.contains \"data\" && groupYieldGuarded && groupYieldsTestedValue\n",
+         "-- READ: CodeGenerator.visit_Output builds `body` by append only (no re-assignment, filtering, deletion)",
+         f"def outputBodyOnlyAppended : Bool := {lbool(only_append)}\n",
+         "-- READ: the write loop of visit_Output writes every constant group (`yield <repr>` / `<repr>,`), no skip",
+         f"def constGroupAlwaysWritten : Bool := {lbool(always_written)}\n",
          "end JinjaV.Gen.NativeGuards\n"]
     return "NativeGuards.lean", "\n".join(L)
